@@ -19,9 +19,11 @@ func init() {
 }
 
 func c10(c *Ctx) {
+	c.walFrameReads("wal-frame/page-after-header")
 	p := c.P
 	c.captureFamily("litefs.(*DB).WriteSnapshotTo", false)
 	c.captureFamily("litefs.(*DB).Export", true)
+	c.exportSelfCheck("export-selfcheck")
 	c.walCacheFamily("wal-cache")
 
 	// snapshot self-check + header
